@@ -23,7 +23,7 @@ Proof. exact pump_windows_hold. Qed.
    passed on once, unflagged, without touching the recovery state *)
 Theorem C07_flags : forall cfg s op,
   is_main op = false -> forall e, In e (o_emits (snd (rstep cfg s op))) -> snd e = true.
-Proof. intros cfg s op H. exact (proj1 (rstep_flags_waits cfg s op H)). Qed.
+Proof. exact rstep_flagged_all. Qed.
 
 Theorem C07_main_never_flagged : forall cfg s p o,
   rstep cfg s (MainRec p o) =
@@ -84,8 +84,8 @@ Proof. exact f6_witness. Qed.
    fresh records (the client delivers a, a+1, ... after Assign (p,a)), stale records below the client's position,
    stragglers of an earlier assignment AHEAD of the position (inside the window, not a multiple of updateRequestEvery), records
    and requests of other partitions, refreshes, ownership changes, revocations, truncation errors with lows <= LB,
-   ignored errors, foreign snapshots of other partitions and crashes with hand-off to an instance that read the
-   compacted topic: when the request is complete every retained (> LB) record of (from, to] has been emitted; while it
+   ignored errors, foreign snapshots of other partitions and crashes - between records or while the owner is blocked on
+   the emission of a record (RecCrash) - with hand-off to an instance that read the compacted topic: when the request is complete every retained (> LB) record of (from, to] has been emitted; while it
    is outstanding every retained record of (from, broadcast progress] has been emitted.  Excluded ([ok_op]): arbitrary
    records on p (in particular stragglers ON the broadcast grid or beyond to: on the current code they broadcast a
    progress point / close the request ahead of what was recovered and records ARE lost if a re-assignment follows), a second request / foreign snapshot for p, cancel-all, main-consumer assignments. *)
@@ -97,6 +97,24 @@ Theorem C07_cover_partial : forall cfg p f0 t LB s ops,
   /\ (forall rf, lookup p (trk s') = Some [(rf, t)] -> forall o, f0 < o <= rf -> o <= t -> LB < o -> In o em)
   /\ (lookup p (trk s') = Some [] \/ exists rf, lookup p (trk s') = Some [(rf, t)]).
 Proof. exact cover_run. Qed.
+
+(* F11 (open known finding): admit UNRESTRICTED stragglers of an earlier assignment (Wild: ahead of the client's
+   position, possibly a multiple of updateRequestEvery or beyond to) and coverage fails strictly inside the window:
+   a straggler on the broadcast grid followed by a re-assignment loses 13..19 of (10,30]; a straggler beyond to closes
+   (10,20] after 11, 12.  C07_cover_partial above is the part that holds (stragglers restricted as in Ahead). *)
+Definition C07_straggler_full_statement : Prop := C07_cover_straggler_statement.
+
+Theorem C07_straggler_refuted : ~ C07_cover_straggler_statement.
+Proof. exact cover_straggler_refuted. Qed.
+
+Example C07_straggler_witness :
+  (forallb (ok_op_wild 1 (-1)) f11_grid_ops = true
+   /\ lookup 1 (trk (final_state f6_cfg init_state (Request 1 10 30 :: f11_grid_ops))) = Some []
+   /\ run_emits 1 (rrun f6_cfg init_state (Request 1 10 30 :: f11_grid_ops)) = [11; 12; 20; 21; 22; 23; 24; 25; 26; 27; 28; 29; 30])
+  /\ (forallb (ok_op_wild 1 (-1)) f11_beyond_ops = true
+      /\ lookup 1 (trk (final_state f6_cfg init_state (Request 1 10 20 :: f11_beyond_ops))) = Some []
+      /\ run_emits 1 (rrun f6_cfg init_state (Request 1 10 20 :: f11_beyond_ops)) = [11; 12]).
+Proof. exact f11_witness. Qed.
 
 (* its hypothesis is what RequestRecovery establishes, and is inhabited *)
 Theorem C07_request_is_fresh : forall cfg s p f t,
@@ -118,4 +136,5 @@ Print Assumptions C07_truncation_moves.
 Print Assumptions C07_other_errors_ignored.
 Print Assumptions C07_cover_full_refuted.
 Print Assumptions C07_cover_partial.
+Print Assumptions C07_straggler_refuted.
 Print Assumptions C07_request_is_fresh.
